@@ -207,6 +207,7 @@ void* trampoline(void* p) {
   while (__real_sem_wait(&th[id].go) != 0 && errno == EINTR) {}
   tl_id = id;
   th[id].ret = th[id].fn(th[id].arg);
+  TRACE("thread_finish");
   // finished: wake joiners, hand the baton on
   th[id].state = T_FINISHED; --st.threads;
   for (int i = 0; i < nth; ++i) if (th[i].state == T_BLOCKED && th[i].wait == W_JOIN && th[i].joinTarget == id) th[i].state = T_RUNNABLE;
@@ -310,6 +311,7 @@ int __wrap_pthread_create(pthread_t* t, const pthread_attr_t* a, void* (*fn)(voi
   int rc = __real_pthread_create(&th[id].real, a, trampoline, (void*)(long)id);
   if (rc) { th[id].state = T_UNUSED; --nth; return rc; }
   *t = th[id].real;
+  TRACE("thread_create T%d handle %lx", id, (unsigned long)th[id].real);
   yieldPoint(); progress();
   return 0;
 }
@@ -319,6 +321,7 @@ int __wrap_pthread_join(pthread_t t, void** ret) {
   if (id < 0) return __real_pthread_join(t, ret);
   yieldPoint();
   int me = tl_id;
+  TRACE("join T%d handle %lx%s", id, (unsigned long)t, th[id].state == T_FINISHED ? " (finished)" : "");
   while (th[id].state != T_FINISHED) { th[me].state = T_BLOCKED; th[me].wait = W_JOIN; th[me].joinTarget = id; th[me].deadline = -1; blockHere(); th[me].wait = W_NONE; }
   __real_pthread_join(t, nullptr); th[id].joined = true;
   if (ret) *ret = th[id].ret;
